@@ -59,9 +59,17 @@ pub fn extract_annotations(
         if let Some(cap) = re.captures(line) {
             let str_value = &cap[3];
             if kind == "Field Elements" {
-                res.extend(str_value.split(',').filter_map(BigUint::from_str_hex));
-            } else if let Some(val) = BigUint::from_str_hex(str_value) {
-                res.push(val)
+                for element in str_value.split(',') {
+                    res.push(
+                        BigUint::from_str_hex(element)
+                            .ok_or(anyhow::anyhow!("Invalid hex value in annotation: {line}"))?,
+                    );
+                }
+            } else {
+                res.push(
+                    BigUint::from_str_hex(str_value)
+                        .ok_or(anyhow::anyhow!("Invalid hex value in annotation: {line}"))?,
+                );
             }
         }
     }
